@@ -503,22 +503,27 @@ Section Sound.
   Qed.
 
   (* ---- classical identity ---- *)
-  Lemma ident_step M f b i j ta tb p args w : model_ok L M -> ibsat S M f b -> fl_classical L = true ->
-    nth_error b i = Some (NS (Pred 0 [ta; tb]) true w) -> nth_error b j = Some (NS (Pred p args) true w) ->
-    isat S M f (NS (Pred p (map (replace_term ta tb) args)) true w) /\
-    isat S M f (NS (Pred p (map (replace_term tb ta) args)) true w).
+  Lemma ident_args_tval (tv : term -> nat) ta tb : tv ta = tv tb -> forall a a',
+    ident_args ta tb a a' = true -> map tv a' = map tv a.
   Proof.
-    intros Hm Hs Hc Hi Hj.
+    intros E. induction a as [|x r IH]; intros [|x' r'] H; simpl in H; try discriminate; [reflexivity|].
+    apply andb_true_iff in H. destruct H as [H1 H2]. simpl. rewrite (IH _ H2). f_equal.
+    rewrite !orb_true_iff, !andb_true_iff in H1. destruct H1 as [[H1|[H1 H1']]|[H1 H1']];
+      apply term_eqb_eq in H1; try apply term_eqb_eq in H1'; subst; auto.
+  Qed.
+
+  Lemma ident_step M f b i j ta tb p args args' w : model_ok L M -> ibsat S M f b -> fl_classical L = true ->
+    nth_error b i = Some (NS (Pred 0 [ta; tb]) true w) -> nth_error b j = Some (NS (Pred p args) true w) ->
+    ident_args ta tb args args' = true ->
+    isat S M f (NS (Pred p args') true w).
+  Proof.
+    intros Hm Hs Hc Hi Hj Hia.
     pose proof (Hs _ (nth_error_In _ _ Hi)) as H1. pose proof (Hs _ (nth_error_In _ _ Hj)) as H2.
     simpl in H1, H2. rewrite (mo_ident _ _ Hm Hc) in H1.
     destruct (fo_classical _ OK Hc) as [HT [HF _]].
     destruct (Nat.eqb (tval M env0 ta) (tval M env0 tb)) eqn:E; [|unfold t, S in *; congruence].
     apply Nat.eqb_eq in E.
-    assert (Hrep : forall o n, tval M env0 o = tval M env0 n ->
-              map (tval M env0) (map (replace_term o n) args) = map (tval M env0) args).
-    { intros o n Hon. rewrite map_map. apply map_ext. intro z. unfold replace_term.
-      destruct (term_eqb z o) eqn:Ez; [|reflexivity]. apply term_eqb_eq in Ez. subst. auto. }
-    split; simpl; [rewrite (Hrep ta tb E) | rewrite (Hrep tb ta (eq_sym E))]; exact H2.
+    simpl. rewrite (ident_args_tval (tval M env0) ta tb E _ _ Hia). exact H2.
   Qed.
 
   (* ---- induction principle and child selection ---- *)
@@ -684,11 +689,10 @@ Section Sound.
         destruct (nth_error b j) as [[s2 d2 w2|]|] eqn:Ej; try discriminate.
         destruct s2 as [|p args| | | |]; try discriminate. destruct d2; try discriminate.
         rewrite !andb_true_iff in Hck. destruct Hck as [[Hw Hg] Hall]. apply Nat.eqb_eq in Hw. subst w2.
-        destruct (ident_step M f b i j ta tb p args w1 Hm Hs Hcl Ei Ej) as [I1 I2].
-        apply orb_true_iff in Hg. destruct Hg as [Hg|Hg]; apply groups_eqb_eq in Hg; subst gs;
-          destruct (all2_single _ ts _ Hall) as [t' [-> Hck']].
-        * apply (Fin t' _ tk M f (or_introl eq_refl) (or_introl eq_refl) Hck' Hm Hf Hs). intros n [<-|[]]. exact I1.
-        * apply (Fin t' _ tk M f (or_introl eq_refl) (or_introl eq_refl) Hck' Hm Hf Hs). intros n [<-|[]]. exact I2.
+        destruct Hg as [Hia Hg]. remember (ident_new gs) as args' eqn:Ea. apply groups_eqb_eq in Hg. subst gs.
+        pose proof (ident_step M f b i j ta tb p args args' w1 Hm Hs Hcl Ei Ej Hia) as I1.
+        destruct (all2_single _ ts _ Hall) as [t' [-> Hck']].
+        apply (Fin t' _ tk M f (or_introl eq_refl) (or_introl eq_refl) Hck' Hm Hf Hs). intros n [<-|[]]. exact I1.
   Qed.
 End Sound.
 
